@@ -45,7 +45,7 @@ class PROP(Prop):
                 replies = [e[2:] for e in full if e.startswith("W:")]
                 total = sum(len(r) // 2 for r in replies)
                 for off in range(total):
-                    for fault in ("e:BrokenPipe", "z", "e:Other"):
+                    for fault in ("e:BrokenPipe", "z", "e:Other", "e:Interrupted"):
                         # one accept event per reply that is written completely, then the partial accept, then the fault
                         exp, acc, wev = [], 0, []
                         for e in full:
